@@ -190,6 +190,14 @@ impl World {
                             let res = if payloads.len() == 1 && (*uid & 1) == 1 {
                                 // exercise the single-record entry point too
                                 log.append_record(&names[*q], *pos, &payloads[0][..])
+                            } else if (*uid & 2) == 2 {
+                                // payloads handed over as non-contiguous `Buf`s (three chunks each)
+                                use bytes::Buf;
+                                log.append_records(&names[*q], *pos, payloads.iter().map(|p| {
+                                    let (a, rest) = p.split_at(p.len() / 3);
+                                    let (b, c) = rest.split_at(rest.len() / 2);
+                                    a.chain(b).chain(c)
+                                }))
                             } else {
                                 log.append_records(&names[*q], *pos, payloads.iter().map(|p| &p[..]))
                             };
